@@ -149,7 +149,9 @@ U4 = universe("U4", 4, [
     ("(g (p 1 2))", "(g (f 1 2))"),
     ("(g (g (p 1 2)))", F12),      # a small class merged into a bigger one whose datum improves
     ("(g (g (p 1 2)))", V1),
-], base=["(h (v 1) (v 2))", "(h (g (g (p 1 2))) (f 1 2))", "(h (g (g (p 1 2))) (v 1))", "(g (g (g (p 1 2))))", "(p 2 3)", "(lam 2 (p 2 1))", "(g (p 1 2))", "(g (g (p 1 2)))", "(h (p 1 2) (v 1))", "(h (v 2) (p 1 2))", "(lam 1 (p 1 2))", "(g (v 1))",
+    ("(lam 2 (p 2 1))", V1),       # a binder term with a free slot in an equation: if the binder captures that slot the other side loses its slot
+], base=["(p 2 3)", "(lam 2 (p 2 1))",      # FIRST: under the naming fresh-lazy name 1 is parsed right before this binder is refreshed
+         "(h (v 1) (v 2))", "(h (g (g (p 1 2))) (f 1 2))", "(h (g (g (p 1 2))) (v 1))", "(g (g (g (p 1 2))))", "(g (p 1 2))", "(g (g (p 1 2)))", "(h (p 1 2) (v 1))", "(h (v 2) (p 1 2))", "(lam 1 (p 1 2))", "(g (v 1))",
          "(h (p 1 2) (p 2 3))", "(h (p 2 1) (v 1))", "(h (p 1 2) (p 2 1))"],
    note="pre-inserted parents / grand-parents of the classes that get merged")
 
